@@ -2,6 +2,7 @@
 The expected values are computed from the AST by the rules of the documented grammar, independently
 of vermouth's parsers."""
 import json
+import random
 
 ATOM_POOL = ['BB', 'SC1', 'SC2', 'CA', 'N', 'C', 'O', 'P1']
 INTER_2 = ['bonds', 'constraints', 'pairs']
@@ -49,6 +50,21 @@ def gen_block(rng, idx):
     for typ in {i['type'] for i in inters}:
         if rng.random() < 0.2:
             smeta[typ] = {'group': 'g%d' % idx}
+    # a line's own metadata restating a key of the subsection's #meta with another value: the line wins (documented:
+    # "#meta ... applies to all interactions that follow unless overridden"); drawn from a derived stream so that the
+    # other choices of the case stay what they were
+    sub = random.Random(repr((idx, [(i['type'], i['refs'], i['params']) for i in inters])))
+    if inters and not smeta and sub.random() < 0.3:
+        smeta[sub.choice(inters)['type']] = {'group': 'g%d' % idx}
+    for typ in sorted(smeta):
+        if sub.random() < 0.6:
+            smeta[typ]['version'] = sub.choice([1, 2, 3])
+        for i in inters:
+            if i['type'] == typ and sub.random() < 0.6:
+                own = dict(i['meta'] or {})
+                for key in sub.sample(sorted(smeta[typ]), sub.randint(1, len(smeta[typ]))):
+                    own[key] = 'own%d' % idx if key == 'group' else smeta[typ][key] + sub.choice([1, 2])
+                i['meta'] = own
     return {'kind': 'block', 'name': 'BLK%d' % idx, 'nrexcl': rng.choice([1, 3]), 'atoms': atoms, 'inters': inters, 'edges': edges,
             'smeta': smeta, 'citation': ['ref%d' % idx] if rng.random() < 0.2 else []}
 
